@@ -24,6 +24,7 @@ import ast
 from sa import core
 from sa import facts as repo_facts
 from sa import formula
+from sa import pathsym
 from sa import pycfg
 from sa import tpl
 
@@ -234,36 +235,57 @@ def check(model, rep, tier):
           d, d, depth + 1) for d in ds)
     return False
 
-  rep.check(len(stores) == 1 and is_frozenset_value(stores[0].value, stores[0].value),
+  rep.check(len(stores) >= 1 and all(is_frozenset_value(st.value, st.value)
+                                     for st in stores),
             'OPT-NORM', '%s:frozenset' % init.site,
             'optional_features must be stored as a frozenset (hashable, order '
             'and spelling independent)', {'stores': [core.norm(s) for s in stores]},
             line=init.node.lineno,
             witness='features given as (A, B) vs (B, A) vs {A, B} compare unequal')
   tests = [core.norm(n.test) for n in ast.walk(init.node) if isinstance(n, ast.If)]
-  none_ok = False
-  single_ok = False
-  for n in ast.walk(init.node):
-    if isinstance(n, ast.If):
-      t = n.test
-      if isinstance(t, ast.Compare) and isinstance(t.ops[0], ast.Is) and \
-          core.dotted(t.left) == 'optional_features' and isinstance(
-              t.comparators[0], ast.Constant) and t.comparators[0].value is None:
-        for s in n.body:
-          if isinstance(s, ast.Assign) and core.dotted(s.targets[0]) == \
-              'optional_features' and isinstance(
-                  s.value, (ast.Tuple, ast.List, ast.Set, ast.Call)) and not getattr(
-                      s.value, 'elts', None):
-            none_ok = True
-      if isinstance(t, ast.Call) and core.dotted(t.func) == 'isinstance' and \
-          core.dotted(t.args[0]) == 'optional_features' and \
-          core.dotted(t.args[1]) == 'Feature':
-        for s in n.body:
-          if isinstance(s, ast.Assign) and core.dotted(s.targets[0]) == \
-              'optional_features' and isinstance(s.value, (ast.Tuple, ast.List, ast.Set)) \
-              and len(s.value.elts) == 1 and core.dotted(s.value.elts[0]) == \
-              'optional_features':
-            single_ok = True
+  # what is stored, path by path, in terms of the parameter
+  pf = 'optional_features'
+  none_ok = single_ok = other_ok = False
+  seen_cases = []
+  if stores:
+    none_ok = single_ok = other_ok = True
+    got = {'NONE': False, 'SINGLE': False, 'OTHER': False}
+    for conds, val in [pv for st in stores
+                       for pv in pathsym.path_values(init.node, st, st.value)]:
+      case = None
+      consistent = True
+      facts_ = {}
+      for pol, t in conds:
+        tt = core.norm(t)
+        if tt == '%s is None' % pf:
+          facts_['NONE'] = pol == 'T'
+        elif tt == '%s is not None' % pf:
+          facts_['NONE'] = pol == 'F'
+        elif tt == 'isinstance(%s, Feature)' % pf:
+          facts_['SINGLE'] = pol == 'T'
+      if facts_.get('NONE'):
+        case = 'NONE'
+      elif facts_.get('SINGLE'):
+        case = 'SINGLE'
+      elif facts_.get('NONE') is False and facts_.get('SINGLE') is False:
+        case = 'OTHER'
+      v = core.norm(val)
+      seen_cases.append((case, v))
+      if case == 'NONE':
+        got['NONE'] = True
+        none_ok = none_ok and v in ('frozenset(())', 'frozenset()', 'frozenset([])')
+      elif case == 'SINGLE':
+        got['SINGLE'] = True
+        single_ok = single_ok and v in ('frozenset((%s,))' % pf, 'frozenset([%s])' % pf,
+                                        'frozenset({%s})' % pf)
+      elif case == 'OTHER':
+        got['OTHER'] = True
+        other_ok = other_ok and v == 'frozenset(%s)' % pf
+      else:
+        none_ok = single_ok = False
+    none_ok = none_ok and got['NONE']
+    single_ok = single_ok and got['SINGLE'] and other_ok and got['OTHER']
+  tests = seen_cases
   rep.check(none_ok, 'OPT-NORM', '%s:none-is-empty' % init.site,
             'None is not normalised to an empty collection before frozenset()',
             {'tests': tests}, line=init.node.lineno,
@@ -306,6 +328,8 @@ def check(model, rep, tier):
         continue
       ph = v.id if isinstance(v, ast.Name) else None
       src = s.kwargs.get(ph)
+      if isinstance(src, ast.Name):
+        src = tpl.expand(to_ast, src, s.call)      # a local holding the value
       fs = expr_fields(src, 'self') if src is not None else set()
       rep.check(ph is not None and src is not None and fs == {p}, 'OPT-TOAST',
                 '%s:keyword(%s)' % (to_ast.site, p),
@@ -325,39 +349,42 @@ def check(model, rep, tier):
                   'boolean field must be embedded as the expression str(self.%s)' % p,
                   {'value': core.norm(src)}, line=s.call.lineno)
   # feature list rendering: evaluate the string operations on symbolic elements
-  lof = [f for f in core._nested_defs(to_ast.node) if f.name == 'list_of_features']
   rendered_ok = False
   facts = {}
-  if lof:
-    lf = lof[0]
-    ret = [r for r in ast.walk(lf) if isinstance(r, ast.Return)]
-    if ret and isinstance(ret[0].value, ast.Call):
-      call = ret[0].value
-      arg = call.args[0] if call.args else None
+  used = s.kwargs.get('optional_features_val')
+  fexpr = None
+  coll = 'self.optional_features'
+  if isinstance(used, ast.Call) and isinstance(used.func, ast.Name):
+    # a helper nested in to_ast: its result with the parameter bound to the field
+    lof = [f for f in core._nested_defs(to_ast.node) if f.name == used.func.id]
+    if lof and len(used.args) == 1 and core.norm(used.args[0]) == coll:
+      lf = lof[0]
+      ret = [r for r in ast.walk(lf) if isinstance(r, ast.Return)]
       pname = lf.args.args[0].arg
-      results = {}
-      for k in (0, 1, 2, 3):
-        elems = ['Feature.F%d' % i for i in range(k)]
-        try:
-          txt = _render(arg, pname, elems)
-        except core.AnalysisError as e:
-          txt = None
-          facts['error'] = str(e)
-        results[k] = txt
-      facts['rendered'] = results
-      rendered_ok = all(_denotes_features(results[k], k) for k in results)
-      used = s.kwargs.get('optional_features_val')
-      flows = (isinstance(used, ast.Call) and core.dotted(used.func) ==
-               'list_of_features' and core.dotted(used.args[0]) ==
-               'self.optional_features')
-      rendered_ok = rendered_ok and flows
-      # the rendered collection is the parameter itself: not rebound, filtered
-      # or collapsed on the way to the return
-      ds = tpl.rdefs(lf).reaching(ret[0].value, pname)
-      facts['definitions_of_%s_at_return' % pname] = [
-          d[0] if isinstance(d, tuple) else core.norm(d)[:40] for d in (ds or [])]
-      rendered_ok = rendered_ok and ds is not None and len(ds) == 1 and \
-          isinstance(ds[0], tuple) and ds[0][0] == 'param'
+      if len(ret) == 1:
+        ds = tpl.rdefs(lf).reaching(ret[0].value, pname)
+        facts['definitions_of_%s_at_return' % pname] = [
+            d[0] if isinstance(d, tuple) else core.norm(d)[:40] for d in (ds or [])]
+        if ds is not None and len(ds) == 1 and isinstance(ds[0], tuple) and \
+            ds[0][0] == 'param' and len([x for x in ast.walk(lf) if isinstance(
+                x, ast.stmt) and x is not lf]) == 1:
+          fexpr = ret[0].value
+          coll = pname
+  elif used is not None:
+    fexpr = tpl.expand(to_ast, used, s.call)
+  if isinstance(fexpr, ast.Call) and core.dotted(fexpr.func) == 'parser.parse_expression' \
+      and len(fexpr.args) == 1:
+    results = {}
+    for k in (0, 1, 2, 3):
+      elems = ['Feature.F%d' % i for i in range(k)]
+      try:
+        txt = _render(fexpr.args[0], coll, elems)
+      except core.AnalysisError as e:
+        txt = None
+        facts['error'] = str(e)
+      results[k] = txt
+    facts['rendered'] = results
+    rendered_ok = all(_denotes_features(results[k], k) for k in results)
   rep.check(rendered_ok, 'OPT-TOAST', '%s:feature-list' % to_ast.site,
             'the feature set does not render to an expression that evaluates '
             'to the same features (ag__.Feature.X, comma separated, any count)',
@@ -445,11 +472,8 @@ def check(model, rep, tier):
         return 'f_in'
     return None
 
-  okk = len(rets) == 1
-  cex = None
-  if okk:
-    f = formula.bool_formula(rets[0].value, atom_of)
-    okk, cex = formula.equivalent(f, formula.atom('ALL_in') | formula.atom('f_in'))
+  f = formula.result_formula(uses.node, formula.expanding(uses.node, atom_of))
+  okk, cex = formula.equivalent(f, formula.atom('ALL_in') | formula.atom('f_in'))
   rep.check(okk, 'OPT-USES', '%s' % uses.site,
             'uses(feature) is not equivalent to (ALL in features) or (feature '
             'in features)', {'counterexample': cex,
@@ -484,23 +508,22 @@ def check(model, rep, tier):
             line=finit.node.lineno,
             witness='user_requested=False, internal_convert_user_code != recursive')
   fso = model.func(FUNCS, 'FunctionTransformer._function_scope_options')
-  rets = [r for r in ast.walk(fso.node) if isinstance(r, ast.Return)]
-  lvl2 = None
-  deeper = None
-  for n in ast.walk(fso.node):
-    if isinstance(n, ast.If) and isinstance(n.test, ast.Compare) and \
-        core.norm(n.test.left).endswith('.level') and isinstance(
-            n.test.ops[0], (ast.Eq, ast.LtE)) and isinstance(
-                n.test.comparators[0], ast.Constant) and \
-        n.test.comparators[0].value == 2:
-      for sub in n.body:
-        if isinstance(sub, ast.Return):
-          lvl2 = core.norm(sub.value)
-  for r in fso.node.body:
-    if isinstance(r, ast.Return):
-      deeper = core.norm(r.value)
-  rep.check(lvl2 == 'self.ctx.user.options' and
-            deeper == 'self.ctx.user.options.call_options()', 'OPT-CALLEE',
+  fp_ = fso.params()[0]
+
+  def lvl_atom(e):
+    t = core.norm(e)
+    if t in ('%s.level == 2' % fp_, '%s.level <= 2' % fp_, '%s.level < 3' % fp_):
+      return 'TOP'
+    return None
+  cases = formula.return_cases(fso.node, formula.expanding(fso.node, lvl_atom))
+  TOPA = formula.atom('TOP')
+  top_vals = {core.norm(v) if v is not None else None
+              for f, v in cases if formula.satisfiable(f & TOPA)}
+  deep_vals = {core.norm(v) if v is not None else None
+               for f, v in cases if formula.satisfiable(f & ~TOPA)}
+  lvl2, deeper = sorted(map(str, top_vals)), sorted(map(str, deep_vals))
+  rep.check(top_vals == {'self.ctx.user.options'} and
+            deep_vals == {'self.ctx.user.options.call_options()'}, 'OPT-CALLEE',
             '%s' % fso.site,
             'top-level function scope must get the user options, nested ones '
             'the call options', {'level2': lvl2, 'nested': deeper},
@@ -581,16 +604,21 @@ def _render(e, pname, elems):
   if isinstance(e, ast.JoinedStr):
     out = ''
     for v in e.values:
-      out += v.value if isinstance(v, ast.Constant) else _render(
-          v.value, pname, elems)
+      if isinstance(v, ast.Constant):
+        out += v.value
+      elif isinstance(v, ast.FormattedValue) and v.conversion in (-1, 115) and \
+          v.format_spec is None:
+        out += _render(v.value, pname, elems)
+      else:
+        raise core.AnalysisError('cannot evaluate f-string part %s' % core.norm(v))
     return out
   raise core.AnalysisError('cannot evaluate string expression %s' % core.norm(e))
 
 
 def _render_seq(e, pname, elems):
   if isinstance(e, (ast.GeneratorExp, ast.ListComp)) and len(e.generators) == 1 and \
-      isinstance(e.generators[0].iter, ast.Name) and \
-      e.generators[0].iter.id == pname and not e.generators[0].ifs:
+      core.norm(e.generators[0].iter) == pname and not e.generators[0].ifs and \
+      isinstance(e.generators[0].target, ast.Name):
     var = e.generators[0].target.id
     out = []
     for el in elems:
